@@ -51,6 +51,12 @@ def run(ctx):
         ctx.evaluations += 1
         ctx.count("merged", "multi_batch_runs")
         relations(ctx, ins, rows, st, {"inputs": ins, "batch_size": k})
+    # malformed stream: lost batches / filtered rows (C05's mechanisms) and what the counters say then
+    for ins, k in ((["C>>C", "C", "CC>>CC"], None), (["C>>C", "XX>>C", "CC>>CC"], None), (["C>>C", "C", "CC>>CC", "CCO>>CCO"], 2)):
+        b = pipe.run_api(ins, k)
+        ctx.evaluations += 1
+        ctx.count("merged", "malformed_runs")
+        relations(ctx, ins, b["rows"], b["stats"], {"inputs": ins, "batch_size": k})
     ctx.sample({"inputs": bs[0]["inputs"][:2], "stats": bs[0]["stats"]})
     pipe.eval_pipeline_cases(ctx, bs + gs, "c18")
 
